@@ -170,11 +170,27 @@ ContractPut(c, i, v) == /\ c \in deployed /\ i \in Under(c)
                         /\ flatC' = [flatC EXCEPT ![i] = v]
                         /\ UNCHANGED <<disk, ovl, flatO, deployed, destroyed, metaO>>
 
+\* native global-param addDestroyedContract (operator path): CacheDB.SetContractDestroyed WITHOUT deleting the
+\* contract record or its storage.  CacheDB.GetContract reports such an address as destroyed and returns no
+\* contract, so from then on it is neither callable nor deployable; its storage stays where it is.
+MarkDestroyed(c) == /\ Track /\ c \notin destroyed
+                    /\ Step([name |-> "MarkDestroyed", c |-> c])
+                    /\ destroyed' = destroyed \cup {c}
+                    /\ deployed' = deployed \ {c}
+                    /\ UNCHANGED <<disk, ovl, cache, flatO, flatC, metaO>>
+
+\* a storage write attempted in the name of an address that is not a live contract (never deployed, destroyed,
+\* migrated away, listed by the operator): the code must refuse it (kept as an action so that the replay executes it)
+PutRefused(c, i) == /\ c \notin deployed /\ i \in Under(c)
+                    /\ Step([name |-> "PutRefused", c |-> c, k |-> i, v |-> CHOOSE v \in Vals : TRUE])
+                    /\ UNCHANGED <<disk, ovl, cache, flatO, flatC, deployed, destroyed, metaO>>
+
 Next == \/ \E i \in K, v \in Vals : CachePut(i, v) \/ OvlPut(i, v)
         \/ \E i \in K : CacheDelete(i) \/ OvlDelete(i)
         \/ CacheCommit \/ CacheReset \/ OvlCommit
         \/ \E c \in Contracts, d \in Contracts : Migrate(c, d)
-        \/ \E c \in Contracts : Destroy(c) \/ Deploy(c) \/ DeployRefused(c)
+        \/ \E c \in Contracts : Destroy(c) \/ Deploy(c) \/ DeployRefused(c) \/ MarkDestroyed(c)
+        \/ \E c \in Contracts, i \in K : PutRefused(c, i)
         \/ \E c \in Contracts, i \in K, v \in Vals : ContractPut(c, i, v)
 
 Spec == Init /\ [][Next]_vars
@@ -208,6 +224,12 @@ DestroyOK == [][act'.name = "Destroy" /\ nops' # nops => \A i \in Under(act'.c) 
 \* (an unpublished marker disappears with CacheReset: the destroying transaction failed)
 Tombstoned == [][\A c \in metaO[2] : c \in metaO'[2] /\ c \in destroyed' /\ c \notin deployed']_vars
 NoOrphan == \A c \in destroyed : Track => c \notin deployed
+\* an address carrying the destroyed marker is dead whatever record or storage is still under it
+MarkedDead == [][act'.name = "MarkDestroyed" /\ nops' # nops =>
+                   act'.c \in destroyed' /\ act'.c \notin deployed' /\ flatC' = flatC]_vars
+\* refused calls change nothing
+RefusedNoop == [][act'.name \in {"PutRefused", "DeployRefused"} /\ nops' # nops =>
+                    flatC' = flatC /\ flatO' = flatO /\ deployed' = deployed /\ destroyed' = destroyed]_vars
 
 \* state projection exported on edges (maps as arrays in KeySeq order)
 State == [disk |-> disk, ovl |-> ovl, cache |-> cache, flatO |-> flatO, flatC |-> flatC,
